@@ -44,6 +44,9 @@ def jobs(tier, seed):
         for i, t in enumerate(tuples(k)):
             out.append({'pat': pat, 'k': k, 't1': list(t), 'seed': seed})
         out.append({'pat': pat, 'k': k, 'cliquevector': True, 'seed': seed})
+        for i, t in enumerate(tuples(k)):
+            if len(t) >= 2 or tier == 'thorough':
+                out.append({'pat': pat, 'k': k, 't1': list(t), 'seed': seed, 'names': 'ints'})
     return out
 
 
@@ -199,10 +202,10 @@ def binary_cases(acc, dom, pat, t1, t2, seed):
     return fails
 
 
-def unary_cases(acc, dom, pat, t1, k):
+def unary_cases(acc, dom, pat, t1, k, names=None):
     from mbi import Factor
     fails = []
-    attrs_all = S.ATTRS[:k]
+    attrs_all = list(names) if names is not None else S.ATTRS[:k]
     for kind in ('signed', 'neginf', 'positive', 'wide'):
         f = mk(dom, t1, 7, kind)
         T = table(f)
@@ -404,12 +407,39 @@ def cliquevector_cases(acc, dom, k):
     return fails
 
 
+INT_NAMES = {'A': 2, 'B': 0, 'C': 3, 'D': 1}   # integer attribute names that differ from their positions
+
+
+def names_for(job_or_case, k):
+    if job_or_case.get('names') == 'ints':
+        return [INT_NAMES[a] for a in S.ATTRS[:k]]
+    return S.ATTRS[:k]
+
+
+def warm_up_other_pattern(job, k):
+    """the same attribute tuples are first combined under the OTHER size pattern in this process: nothing about a pair of
+    attribute tuples may be remembered independently of the sizes"""
+    from mbi import Domain
+    other = [p_ for p_ in PATTERNS if p_ != job['pat']][0]
+    names = names_for(job, k)
+    dom2 = Domain(names, PATTERNS[other][:k])
+    tl = [tuple(names[S.ATTRS.index(a)] for a in t) for t in tuples(k)]
+    for t1 in tl[:6] + tl[-3:]:
+        for t2 in tl:
+            f1, f2 = mk(dom2, t1, 0, 'signed'), mk(dom2, t2, 60, 'signed')
+            (f1 + f2), (f1 * f2), f1.domain.merge(f2.domain)
+
+
 def run_job(job):
     from mbi import Domain
     acc = Acc()
     k = job['k']
-    dom = Domain(S.ATTRS[:k], PATTERNS[job['pat']][:k])
+    names = names_for(job, k)
+    ren = lambda t: tuple(names[S.ATTRS.index(a)] for a in t)
+    warm_up_other_pattern(job, k)
+    dom = Domain(names, PATTERNS[job['pat']][:k])
     if job.get('cliquevector'):
+        dom = Domain(S.ATTRS[:k], PATTERNS[job['pat']][:k])
         fails = cliquevector_cases(acc, dom, k)
         case = {'pat': job['pat'], 'k': k, 'cliquevector': True}
         acc.case(case)
@@ -417,16 +447,17 @@ def run_job(job):
         if fails:
             acc.violate(case, {'kind': 'cliquevector', 'op': fails[0].split(' ')[1]}, '; '.join(fails[:5]))
         return acc
-    t1 = tuple(job['t1'])
-    fails = unary_cases(acc, dom, job['pat'], t1, k)
-    case = {'pat': job['pat'], 'k': k, 't1': list(t1), 't2': None}
+    t1 = ren(tuple(job['t1']))
+    fails = unary_cases(acc, dom, job['pat'], t1, k, names)
+    case = {'pat': job['pat'], 'k': k, 't1': list(job['t1']), 't2': None, 'names': job.get('names')}
     acc.case(case, nontrivial=len(t1) >= 2)
     acc.outcome('unary:%s' % ('ok' if not fails else 'FAIL'))
     if fails:
         acc.violate(case, {'kind': 'unary', 'op': fails[0].split('(')[0].split(' ')[0]}, '; '.join(fails[:5]))
-    for t2 in tuples(k):
+    for t2_ in tuples(k):
+        t2 = ren(t2_)
         fails = binary_cases(acc, dom, job['pat'], t1, t2, job['seed'])
-        case = {'pat': job['pat'], 'k': k, 't1': list(t1), 't2': list(t2)}
+        case = {'pat': job['pat'], 'k': k, 't1': list(job['t1']), 't2': list(t2_), 'names': job.get('names')}
         acc.case(case, nontrivial=bool(set(t1) & set(t2)) or True)
         for f in fails[:1]:
             op = f.split(' ')
@@ -444,13 +475,18 @@ def replay(case):
     from mbi import Domain
     acc = Acc()
     k = case['k']
-    dom = Domain(S.ATTRS[:k], PATTERNS[case['pat']][:k])
+    names = names_for(case, k)
+    ren = lambda t: tuple(names[S.ATTRS.index(a)] for a in t)
+    if not case.get('cliquevector'):
+        warm_up_other_pattern(case, k)
+    dom = Domain(names, PATTERNS[case['pat']][:k])
     if case.get('cliquevector'):
+        dom = Domain(S.ATTRS[:k], PATTERNS[case['pat']][:k])
         fails = cliquevector_cases(acc, dom, k)
     elif case['t2'] is None:
-        fails = unary_cases(acc, dom, case['pat'], tuple(case['t1']), k)
+        fails = unary_cases(acc, dom, case['pat'], ren(tuple(case['t1'])), k, names)
     else:
-        fails = binary_cases(acc, dom, case['pat'], tuple(case['t1']), tuple(case['t2']), 0)
+        fails = binary_cases(acc, dom, case['pat'], ren(tuple(case['t1'])), ren(tuple(case['t2'])), 0)
     for f in fails:
         print(f)
     return [{'key': {'kind': 'factor-algebra'}, 'msg': '; '.join(fails[:6])}] if fails else []
